@@ -33,10 +33,15 @@ def write_replay(prop, tname, rec):
     reproduced, detail = False, "no native replay hook for this obligation"
     hook = find_hook(rec)
     if hook is not None:
+        import logging
+
+        logging.disable(logging.CRITICAL)  # the library logs what it rejects; the replay reports on its own
         try:
             reproduced, detail = hook(rec.get("model") or {}, rec)
         except Exception as e:  # pylint: disable=broad-except
             reproduced, detail = False, f"replay hook failed: {type(e).__name__}: {e}\n{traceback.format_exc(limit=4)}"
+    if hook is not None:
+        logging.disable(logging.NOTSET)
     doc = {
         "property": prop,
         "task": tname,
